@@ -68,6 +68,29 @@ theorem roundtrip (q : Bool) (a : Arr) (name : String) (h : a.WF) :
     | (subst hw; rw [mapM_decode_encode]; rfl)
 
 
+/-- **Raw storage is exact too.** A tensor that keeps the payload in `raw_data` the way the ONNX
+    specification says (fixed width, little-endian, C order) decodes to the array bit for bit — for
+    every numeric element type, shape and payload. (spox writes typed fields; this is what the oracle
+    holds an implementation to that switches to raw storage, e.g. above a size threshold: writing the
+    array's own byte order instead is *not* this tensor.) -/
+theorem raw_roundtrip (q : Bool) (a : Arr) (name : String) (h : a.WF) (hd : a.dtype ≠ .str) :
+    toArray q (rawProto a name) = some a := by
+  obtain ⟨d, shape, words, strs⟩ := a
+  have hr := h.range
+  have hs := h.no_strs hd
+  simp only at hr hs hd
+  subst hs
+  have key : ∀ nb, 0 < nb → (∀ w ∈ words, w < 256 ^ nb) →
+      decodeRaw nb ((encodeRaw nb words).length / nb) (encodeRaw nb words) = words := by
+    intro nb hnb hw
+    rw [length_encodeRaw, Nat.mul_div_cancel_left _ hnb]
+    exact decodeRaw_encodeRaw nb words hw
+  cases d <;> first
+    | exact absurd rfl hd
+    | (simp only [rawProto, toArray, enumOf, onnxDType, DType.bytes, DType.bits, reduceCtorEq, false_or,
+        Nat.reduceDiv, Nat.reduceEqDiff, if_false, Option.some.injEq, Arr.mk.injEq, true_and, and_true]
+       exact key _ (by decide) (fun w hw => Nat.lt_of_lt_of_le (hr w hw) (by decide)))
+
 /-- `canon` only ever sets the quiet bit of float32 components that are signalling NaNs; dtype,
     shape, strings, the number of words and every other word are untouched. -/
 theorem canon_spec (q : Bool) (a : Arr) :
